@@ -204,6 +204,11 @@ func clObserved(stderr string) (string, bool) {
 	walk = func(e ast.Expr, path []string) {
 		switch t := e.(type) {
 		case *ast.UnaryExpr:
+			if bl, ok := t.X.(*ast.BasicLit); ok && t.Op == token.SUB {
+				f, _ := strconv.ParseFloat(bl.Value, 64)
+				out = append(out, strings.Join(path, ".")+"=n:"+rawBits64(-f))
+				return
+			}
 			walk(t.X, path)
 		case *ast.CompositeLit:
 			typ := ""
@@ -654,7 +659,11 @@ func clValue(r *rng, cmd string, o clOpt, src int) string {
 func clGenConf(r *rng, cmd string, src int, s *sink) string {
 	var kvs []string
 	for _, o := range clCommands[cmd] {
-		if r.chance(3, 5) {
+		stated := r.chance(3, 5)
+		if o.path == "decoder" || o.path == "encoder" || cmd == "gopro.laptimes" {
+			stated = r.chance(9, 10)
+		}
+		if stated {
 			kind := o.kind
 			val := clValue(r, cmd, o, src)
 			if kind == "f" && r.chance(1, 3) {
